@@ -6,6 +6,7 @@ import (
 	"sync"
 	"sync/atomic"
 	"time"
+	"unicode/utf8"
 
 	"github.com/cespare/xxhash/v2"
 	"github.com/ozontech/file.d/xtime"
@@ -164,14 +165,17 @@ func (h *heldMetricsStore[T]) DeleteOldMetrics(holdDuration time.Duration, delet
 }
 
 func (h *heldMetricsStore[T]) truncateLabels(lvs []string) {
-	if h.metricMaxLabelValueLength == 0 {
-		return
-	}
-
 	for i, label := range lvs {
-		if len(label) > h.metricMaxLabelValueLength {
-			lvs[i] = label[:h.metricMaxLabelValueLength]
+		if h.metricMaxLabelValueLength != 0 && len(label) > h.metricMaxLabelValueLength {
+			label = label[:h.metricMaxLabelValueLength]
 		}
+		// label values may come from event fields: prometheus panics on a value that is not
+		// valid UTF-8, and the length cut above can split a multi-byte rune
+		if utf8.ValidString(label) {
+			lvs[i] = label
+			continue
+		}
+		lvs[i] = strings.ToValidUTF8(label, string(utf8.RuneError))
 	}
 }
 
